@@ -222,7 +222,7 @@ def response_case(draw):
     if recipe["kind"] == "file":
         rq["range"] = draw(st.sampled_from(gen.RANGE_HEADERS))
         if draw(st.integers(0, 2)) == 0:
-            rq["if_range"] = draw(st.sampled_from(['"stale-etag"', "Wed, 21 Oct 2015 07:28:00 GMT", "garbage", ""]))
+            rq["if_range"] = draw(st.sampled_from(['"stale-etag"', "Wed, 21 Oct 2015 07:28:00 GMT", "garbage", "", '"caf\xe9"', "\xff"]))
         if draw(st.integers(0, 3)) == 0:
             rq["zerocopy"] = True
     return {"response": recipe, "request": rq}
@@ -235,7 +235,7 @@ def file_grid(quick):
     for size, chunk in shapes:
         for rng in gen.RANGE_HEADERS[1:] + ["bytes=0-0,2-2,4-4", "bytes=4-,0-1"]:
             for method in ("GET", "HEAD"):
-                for if_range in (None, '"stale-etag"'):
+                for if_range in (None, '"stale-etag"', '"caf\xe9"'):
                     if if_range is not None and rng is None:
                         continue
                     for zc in (False, True):
